@@ -43,7 +43,10 @@ RULE_ADDED = (
               "Round 15: signer references that spell the root's name in another case / padded "
               '/ doubled. '
               ' '
-              "Round 16: signer references that are parts of the root's name. ")
+              "Round 16: signer references that are parts of the root's name. "
+              ' '
+              'Round 19: chains in which a properly issued certificate holds an X25519 / X448 k'
+              'ey (which cannot sign) above another certificate. ')
 RULE = RULE + " " + RULE_ADDED.strip()
 ASSUMPTIONS = [
     "any exception out of from_jsonfile counts as 'reports an error' (the admin tools turn "
@@ -492,6 +495,24 @@ def run_case(acc, steps, cseed, tmpdir, HSMCertificateRoot, X509):
         run_doc(acc, steps, d3, ["last-certificate-holds-a-key-of-another-curve"], 2, root3,
                 tmpdir, {"seed": cseed, "which": "other-curve"})
         acc.count("chains_whose_last_certificate_holds_a_key_of_another_curve")
+    # a chain in which a certificate - valid, properly issued - holds a key that cannot
+    # sign anything (X25519 / X448: key agreement only), with another certificate under it:
+    # what stands below gets a verdict, like anything else
+    if rng.random() < 0.3:
+        from cryptography.hazmat.primitives.asymmetric import x25519, x448
+        m4 = g2.build(rng, depth=rng.choice([2, 3, 3]))
+        d4 = g2.to_doc(m4, "uncompressed")
+        certs4 = [e for e in d4["elements"] if e["type"] == "x509_pem"]
+        i4 = rng.randrange(len(m4.certs) - 1)
+        kx = rng.choice([x25519.X25519PrivateKey, x448.X448PrivateKey]).generate()
+        c4 = g2.make_cert("ca%d" % i4, kx.public_key(), "root" if i4 == 0 else "ca%d" % (i4 - 1),
+                          m4.root_key if i4 == 0 else m4.cert_keys[i4 - 1], serial=97)
+        certs4[i4]["message"] = g2.pem_body(c4)
+        root4 = dict(root)
+        root4[2] = X509.from_pem(g2.pem(m4.root_cert), "sgx_root", "sgx_root")
+        run_doc(acc, steps, d4, ["certificate-holding-a-key-agreement-key-above-another"], 2,
+                root4, tmpdir, {"seed": cseed, "which": "key-agreement-key"})
+        acc.count("chains_with_a_certificate_holding_a_key_that_cannot_sign")
     # a QE report body that carries trailing bytes covered by its signature, and an
     # attestation key given in compressed form: both load and validate; saving must
     # not change what was signed
